@@ -98,7 +98,9 @@ def held_back_behind_blocks(impl):
 
 
 def tok_of(c, t):
-    return "%02x%02x" % (0xA0 + c, t)
+    """harness/observe.c: token index t < 128 -> bytes (0xA0 + c, t), a value only client c uses; t >= 128 -> bytes (0x9F, t), the
+    same value whichever client sends it (tokens are only unique per client endpoint: an observer is (client, token))"""
+    return "%02x%02x" % (0x9F if t >= 128 else 0xA0 + c, t)
 
 
 def check(inp, impl, consts):
@@ -127,6 +129,7 @@ def check(inp, impl, consts):
     nver = {}         # r -> number of chg events so far = the version every byte of a block-wise body spells (mod 251)
     lastver = {}      # (c, tok) -> (body version in the first block last sent under this token, event index)
     t_blk = {}        # c -> virtual time of the last datagram with a Block2 option sent to client c
+    used = {}         # c -> token values client c has put into a request so far
     amb = set()       # (c, tok) used by the client against the rules (one token on two resources at once, or re-used with
                       # another query): what "the observation" is becomes ambiguous; such keys follow the server's table and
                       # are not judged until the table lists them nowhere
@@ -155,6 +158,7 @@ def check(inp, impl, consts):
         if op in ("reg", "can", "get"):
             c, r, t, q = int(f[1]), int(f[2]), int(f[3]), int(f[4])
             tok = tok_of(c, t)
+            used.setdefault(c, set()).add(tok)
             req_resp = next((o for o in outs if o["tag"] == "p"), None)
             if op == "can":
                 if (c, tok) in reg and r in reg[(c, tok)]:
@@ -212,7 +216,8 @@ def check(inp, impl, consts):
         elif op == "err":
             errflag[int(f[1])] = int(f[2])
         elif op == "blk":
-            pass          # GET for one more block of a body in progress, no Observe option: no effect on any registration
+            used.setdefault(int(f[1]), set()).add(tok_of(int(f[1]), int(f[3])))
+            # GET for one more block of a body in progress, no Observe option: no effect on any registration
         elif op == "chg":
             if prev is None or prev["R"].get(int(f[1])) is not None:
                 nver[int(f[1])] = nver.get(int(f[1]), 0) + 1
@@ -257,7 +262,7 @@ def check(inp, impl, consts):
                 if o["obs"] >= MOD:
                     viol.append(("observe-range", "event #%d (%s): notification to client %d token %s carries Observe=%d, not a 24-bit value" % (
                         k, ev, c, o["tok"], o["obs"])))
-                if o["tok"][:2] != "%02x" % (0xA0 + c):
+                if o["tok"] not in used.get(c, ()):
                     viol.append(("foreign-token", "event #%d (%s): notification to client %d carries token %s" % (k, ev, c, o["tok"])))
                 if key in sup:
                     viol.append(("superseded-rst", "event #%d (%s): notification Observe=%s sent to client %d token %s after its Reset (event #%d) of a "
@@ -410,12 +415,17 @@ def check(inp, impl, consts):
             r = next(iter(d))
             rr = prev["R"].get(r)
             s = prev["S"].get(c)
-            if rr is None or s is None or s["con"] != 0 or any(qn["c"] == c for qn in prev["Q"]):
+            # excused only while a Confirmable to this client is really outstanding, i.e. sits in the server's retransmission
+            # queue.  The session's con_active counter alone is no excuse: the tail has acknowledged everything, so a counter
+            # that still says "busy" with nothing in the queue will never be released by anything the client can do, and the
+            # observer would wait for ever.
+            if rr is None or s is None or any(qn["c"] == c for qn in prev["Q"]):
                 continue
+            stuck = " (the session's con_active is %d with no Confirmable in the queue: stuck)" % s["con"] if s["con"] else ""
             if not bw:
                 if (c, tok) not in last or last[(c, tok)][0] != rr["observe"]:
-                    viol.append(("latest-not-notified", "after the fair tail client %d token %s was last told Observe=%s but r%d is at %d" % (
-                        c, tok, last.get((c, tok), ("nothing",))[0], r, rr["observe"])))
+                    viol.append(("latest-not-notified", "after the fair tail client %d token %s was last told Observe=%s but r%d is at %d%s" % (
+                        c, tok, last.get((c, tok), ("nothing",))[0], r, rr["observe"], stuck)))
                 continue
             # block-wise line.  A notification may be held back while a block-wise transfer to the same client is in progress,
             # but only for a bounded time after the client's last block request: once nothing with a Block2 option went to
